@@ -24,6 +24,8 @@ pub enum Alpha {
     Tiny,
     /// characters that ISO-8859-1 and windows-1252 encode identically
     Latin1,
+    /// characters that windows-1252 encodes in 0x80..0x9F (three UTF-8 bytes each), in long runs
+    Cp1252,
 }
 
 const FULL: &[(&str, u32)] = &[
@@ -120,6 +122,20 @@ const LATIN1: &[(&str, u32)] = &[
     ("Â\u{a0}", 3),
 ];
 
+const CP1252: &[(&str, u32)] = &[
+    ("a", 2),
+    (" ", 1),
+    ("\u{20ac}", 6),
+    ("\u{201c}\u{201d}", 3),
+    ("\u{2026}\u{2013}\u{2014}\u{2122}", 3),
+    ("\u{0152}\u{0153}\u{0160}\u{0161}\u{0178}\u{017d}\u{017e}\u{0192}\u{02c6}\u{02dc}\u{2018}\u{2019}\u{201a}\u{201e}\u{2020}\u{2021}\u{2022}\u{2030}\u{2039}\u{203a}", 2),
+    // a long run: the decoded text is three times as long as the bytes
+    ("\u{20ac}\u{20ac}\u{20ac}\u{20ac}\u{20ac}\u{20ac}\u{20ac}\u{20ac}\u{20ac}\u{20ac}\u{20ac}\u{20ac}\u{20ac}\u{20ac}\u{20ac}\u{20ac}\u{20ac}\u{20ac}\u{20ac}\u{20ac}\u{20ac}\u{20ac}\u{20ac}\u{20ac}\u{20ac}\u{20ac}\u{20ac}\u{20ac}\u{20ac}\u{20ac}\u{20ac}\u{20ac}\u{20ac}\u{20ac}\u{20ac}\u{20ac}\u{20ac}\u{20ac}\u{20ac}\u{20ac}\u{20ac}\u{20ac}\u{20ac}\u{20ac}\u{20ac}\u{20ac}\u{20ac}\u{20ac}\u{20ac}\u{20ac}\u{20ac}\u{20ac}\u{20ac}\u{20ac}\u{20ac}\u{20ac}\u{20ac}\u{20ac}\u{20ac}\u{20ac}\u{20ac}\u{20ac}\u{20ac}\u{20ac}\u{20ac}\u{20ac}\u{20ac}\u{20ac}\u{20ac}\u{20ac}\u{20ac}\u{20ac}\u{20ac}\u{20ac}\u{20ac}\u{20ac}\u{20ac}\u{20ac}\u{20ac}\u{20ac}\u{20ac}\u{20ac}\u{20ac}\u{20ac}\u{20ac}\u{20ac}\u{20ac}\u{20ac}\u{20ac}\u{20ac}\u{20ac}\u{20ac}\u{20ac}\u{20ac}\u{20ac}\u{20ac}\u{20ac}\u{20ac}\u{20ac}\u{20ac}\u{20ac}\u{20ac}\u{20ac}\u{20ac}\u{20ac}\u{20ac}\u{20ac}\u{20ac}\u{20ac}\u{20ac}\u{20ac}\u{20ac}\u{20ac}\u{20ac}\u{20ac}\u{20ac}\u{20ac}\u{20ac}\u{20ac}\u{20ac}", 14),
+    ("é", 1),
+    ("<", 1),
+    ("&", 1),
+];
+
 fn table(a: Alpha) -> &'static [(&'static str, u32)] {
     match a {
         Alpha::Full => FULL,
@@ -128,6 +144,7 @@ fn table(a: Alpha) -> &'static [(&'static str, u32)] {
         Alpha::Space => SPACE,
         Alpha::Tiny => TINY,
         Alpha::Latin1 => LATIN1,
+        Alpha::Cp1252 => CP1252,
     }
 }
 
@@ -285,6 +302,8 @@ fn uris(o: &TreeOpts) -> Vec<&'static str> {
                 // a namespace name with a space: the renderer may spell it as a literal TAB / LF / CR,
                 // which attribute-value normalisation turns back into a space
                 v.push("urn:s p");
+                // ... and one with a double quote, an apostrophe and a TAB
+                v.push("urn:q\"t'\tz");
             }
             v
         }
@@ -425,6 +444,8 @@ fn gen_attrs(src: &mut Src, g: &mut G) -> Vec<(QName, String)> {
         let lead = ["", " ", "  "][src.choice(3)];
         let trail = ["", " ", "   "][src.choice(3)];
         let core = if src.ratio(1, 3) { core.replace(' ', "   ") } else { core };
+        // (wide pool) white space that is NOT #x20 inside the id: xml:id normalisation leaves it alone
+        let core = if o.wide_prefixes && src.ratio(1, 3) { core.replace(' ', ["\t", "\u{a0}", "\u{3000}", " \t ", "\n"][src.choice(5)]) } else { core };
         out.push((QName::new(XML_NS, "id"), format!("{}{}{}", lead, core, trail)));
     }
     for _ in 0..n {
